@@ -1305,6 +1305,9 @@ class _IterativeEvalTracker:
             self._ns.todo = set()
             self._ns.computed = set()
             self._ns.iteration_number = 0
+            # cells can be built (eg: a model loaded) before the first eval
+            self._ns.iterations = 100
+            self._ns.tolerance = 0.001
         return self._ns
 
     def __call__(self, iterations=100, tolerance=0.001):
